@@ -56,6 +56,12 @@ pub enum CovSpec {
     /// bytes that are NOT a program: a compact integer with a leading zero byte (`f2 02 00 01`); the canonical spelling
     /// `f2 01 01` is a different address.  Never spendable, on any network at any height.
     NonCanonicalInt,
+    /// approves, and ENDS INSIDE a loop body that is longer than the program (`Loop(1000, 200); PushI 1`): whatever
+    /// runs next must start from a clean machine
+    ClippedLoop,
+    /// a straight-line program of more than 200 instructions that counts its own instructions and approves iff it ran
+    /// exactly once from start to end
+    LongStraight,
 }
 
 impl CovSpec {
@@ -101,6 +107,17 @@ impl CovSpec {
             CovSpec::NeedsSlot(slot) => Covenant::from_ops(&[LoadImm(*slot)]).to_bytes(),
             CovSpec::DynLoadTx => Covenant::from_ops(&[PushI(1u8.into()), PushI(0u8.into()), Load, VRef, VLength]).to_bytes(),
             CovSpec::NonCanonicalInt => Bytes::from_static(&[0xf2, 0x02, 0x00, 0x01]),
+            CovSpec::ClippedLoop => Covenant::from_ops(&[Loop(1000, 200), PushI(1u8.into())]).to_bytes(),
+            CovSpec::LongStraight => {
+                let mut ops = vec![PushI(0u8.into())];
+                for _ in 0..110 {
+                    ops.push(PushI(1u8.into()));
+                    ops.push(Add);
+                }
+                ops.push(PushI(110u8.into()));
+                ops.push(Eql);
+                Covenant::from_ops(&ops).to_bytes()
+            }
             CovSpec::HeaderField(i, want_zero) => {
                 let mut ops = vec![PushI(U256::from(*i)), LoadImm(10), VRef];
                 if matches!(i, 1 | 3 | 4 | 5 | 9 | 10) {
@@ -146,11 +163,13 @@ impl Wallet {
         // the covenant-centred stream: unusual covenants much more often
         if twins() >= 6 && r.chance(1, 3) {
             return match r.below(7) {
-                6 => match r.below(6) {
+                6 => match r.below(9) {
                     0 | 1 | 2 => CovSpec::Stores(*r.pick(&[100u16, 100, 1, 0, 5, 9, 3, 65535])),
                     3 => CovSpec::NeedsSlot(*r.pick(&[100u16, 100, 65535, 11])),
                     4 => CovSpec::DynLoadTx,
-                    _ => CovSpec::NonCanonicalInt,
+                    5 => CovSpec::NonCanonicalInt,
+                    6 => CovSpec::ClippedLoop,
+                    _ => CovSpec::LongStraight,
                 },
                 0 | 1 => CovSpec::Truncated(r.below(nk) as usize, 1 + r.below(60) as usize),
                 2 => CovSpec::Undecodable,
@@ -187,11 +206,13 @@ impl Wallet {
                 }
             }
             _ => match r.below(5) {
-                4 => match r.below(5) {
+                4 => match r.below(7) {
                     0 | 1 => CovSpec::Stores(*r.pick(&[100u16, 1, 0, 5, 9])),
                     2 => CovSpec::NeedsSlot(100),
                     3 => CovSpec::DynLoadTx,
-                    _ => CovSpec::NonCanonicalInt,
+                    4 => CovSpec::NonCanonicalInt,
+                    5 => CovSpec::ClippedLoop,
+                    _ => CovSpec::LongStraight,
                 },
                 0 => CovSpec::Never,
                 1 => CovSpec::Undecodable,
@@ -756,9 +777,28 @@ pub fn gen_doscmint(r: &mut Rng, w: &mut Wallet, cx: &Ctx, hist: &SmtMapping<Cas
     .min(1 << 120);
     let mut outs = vec![];
     if erg > 0 || r.chance(1, 3) {
-        outs.push(out(w.rand_addr(r, cx.height), erg, Denom::Erg));
+        // the minted amount in one output, or split over two or three (the bound is on their sum, wherever they stand)
+        match r.below(5) {
+            0 if erg >= 2 => {
+                let a = 1 + r.below((erg - 1).min(u64::MAX as u128) as u64) as u128;
+                outs.push(out(w.rand_addr(r, cx.height), a, Denom::Erg));
+                outs.push(out(w.rand_addr(r, cx.height), erg - a, Denom::Erg));
+            }
+            1 if erg >= 3 => {
+                outs.push(out(w.rand_addr(r, cx.height), 1, Denom::Erg));
+                outs.push(out(w.rand_addr(r, cx.height), erg - 2, Denom::Erg));
+                outs.push(out(w.rand_addr(r, cx.height), 1, Denom::Erg));
+            }
+            _ => outs.push(out(w.rand_addr(r, cx.height), erg, Denom::Erg)),
+        }
     }
-    let (outs, change) = balance(r, w, &inputs, outs, cx.height);
+    let (mut outs, mut change) = balance(r, w, &inputs, outs, cx.height);
+    // sometimes the ERG does not come first among the outputs
+    if outs.len() >= 2 && r.chance(1, 4) {
+        outs.rotate_left(1);
+        let n = outs.len();
+        change = change.map(|c| (c + n - 1) % n);
+    }
     let mut tx = assemble(w, TxKind::DoscMint, &inputs, outs, 0, data);
     fix_fee(w, &mut tx, &inputs, cx.mult, 0, change).then_some(tx)
 }
